@@ -8,7 +8,7 @@ from typing import Dict, List, Optional, Set, Tuple
 from ..catalogue import Catalogue, TermClass
 from ..cfg import CFG
 from ..dataflow import Walker
-from ..model import AnalysisError, Func, Program, norm
+from ..model import local_names, AnalysisError, Func, Program, norm
 from ..report import Collector
 from .common import Refs, enclosing_stmt, func_label, is_super_call, require_func, walk_no_nested
 
@@ -316,6 +316,14 @@ def run(prog: Program, col: Collector, tier: str, refs: Optional[Refs] = None, c
             col.check(ok, f"{ff.fq}::delegates to base conversion", "generated classes rename through Funsor._alpha_convert (Bound parameters are Variables)",
                       "the generated _alpha_convert does not delegate to the base conversion", ff.loc())
 
+    # ---------------------------------------------------------------- R05.7
+    col.rule("R05.7", "every name a constructor hides from its subterm's inputs is declared bound, on every path", floor=4)
+    _hidden_names_bound(prog, col, refs, cat)
+
+    # ---------------------------------------------------------------- R05.8
+    col.rule("R05.8", "after a term is relabelled with fresh names, name sets are computed from the relabelled term, not the original", floor=1)
+    _relabel_discipline(prog, col, refs, cat)
+
     # ---------------------------------------------------------------- R05.2
     col.rule("R05.2", "every constructed term is mangled: all bound names, fresh names, rebuilt through reflect", floor=6)
     _mangle(prog, col, refs)
@@ -605,3 +613,126 @@ def _marker(prog: Program, col: Collector, refs: Refs):
                               f"literal {cand.value!r} is used where the sibling sites of this function use the marker {marker!r}: renamed binders are not recognised / not un-mangled",
                               f.loc(cand))
 
+
+
+# ---------------------------------------------------------------------- R05.7
+def _hidden_names_bound(prog: Program, col: Collector, refs: Refs, cat: Catalogue):
+    """A term constructor that removes a name from (a copy of) a subterm's inputs hides that name: it must be handed to the base
+    constructor as a bound name - unconditionally - or alpha-conversion never renames it and a value substituted into the term
+    that mentions the same name is captured."""
+    n = 0
+    for t in sorted(cat.term_classes.values(), key=lambda x: x.fq):
+        init = t.cls.methods.get("__init__")
+        if init is None or t.fq == FUNSOR_BASE:
+            continue
+        sup = [c for c in walk_no_nested(init.node) if isinstance(c, ast.Call) and isinstance(c.func, ast.Attribute) and c.func.attr == "__init__"
+               and (is_super_call(c, "__init__") or norm(c.func.value) == "Funsor")]
+        if not sup:
+            continue
+        call = sup[0]
+        args = [a for a in call.args if not (isinstance(a, ast.Name) and a.id == init.positional[0])]
+        kw = {k.arg: k.value for k in call.keywords}
+        inputs_e = args[0] if args else kw.get("inputs")
+        bound_e = args[3] if len(args) > 3 else kw.get("bound")
+        if not isinstance(inputs_e, ast.Name):
+            continue
+        M = inputs_e.id
+        params = set(init.positional[1:])
+
+        def key_text(k):
+            if isinstance(k, ast.Name) and k.id in params:
+                return k.id
+            if isinstance(k, ast.Attribute) and k.attr == "name" and isinstance(k.value, ast.Name) and k.value.id in params:
+                return norm(k)
+            return None
+
+        hidden = []
+        for x in walk_no_nested(init.node):
+            if isinstance(x, ast.Call) and isinstance(x.func, ast.Attribute) and x.func.attr == "pop" and isinstance(x.func.value, ast.Name) and x.func.value.id == M and x.args:
+                kt = key_text(x.args[0])
+                if kt:
+                    hidden.append((kt, x))
+            if isinstance(x, ast.Delete):
+                for tg in x.targets:
+                    if isinstance(tg, ast.Subscript) and isinstance(tg.value, ast.Name) and tg.value.id == M:
+                        kt = key_text(tg.slice)
+                        if kt:
+                            hidden.append((kt, x))
+        if not hidden:
+            continue
+        # keys of `bound` that are there on every path: the dict display / top-level keyed stores of the local handed to the base constructor
+        always: Set[str] = set()
+        sometimes: Set[str] = set()
+        top = set(map(id, init.body))
+
+        def collect(e, uncond=True):
+            if isinstance(e, ast.Dict):
+                for k in e.keys:
+                    if k is not None:
+                        (always if uncond else sometimes).add(norm(k))
+            elif isinstance(e, ast.Name):
+                for st in walk_no_nested(init.node):
+                    if not isinstance(st, ast.Assign):
+                        continue
+                    at_top = id(st) in top
+                    for tg in st.targets:
+                        if isinstance(tg, ast.Name) and tg.id == e.id:
+                            collect(st.value, uncond and at_top)
+                        if isinstance(tg, ast.Subscript) and isinstance(tg.value, ast.Name) and tg.value.id == e.id:
+                            (always if (uncond and at_top) else sometimes).add(norm(tg.slice))
+
+        if bound_e is not None:
+            collect(bound_e)
+        for kt, site in hidden:
+            n += 1
+            construct = f"{init.fq}::hidden name `{kt}`"
+            if kt in always:
+                col.ok(construct, f"`{kt}` is removed from the inputs and declared bound on every path", init.loc(site))
+            elif kt in sometimes:
+                col.violation(construct, f"`{kt}` is removed from the inputs on every path but declared bound only under a condition: when the condition fails the name is "
+                              "hidden without being a binder, so it is never alpha-renamed and captures a free variable of that name in a substituted value", init.loc(site))
+            else:
+                col.violation(construct, f"`{kt}` is removed from the subterm's inputs but is not among the bound names handed to the base constructor: it is never "
+                              "alpha-renamed (capture of substituted values / interference between equal names)", init.loc(site))
+    col.cur.analysed["hidden_names"] = n
+
+
+# ---------------------------------------------------------------------- R05.8
+def _relabel_discipline(prog: Program, col: Collector, refs: Refs, cat: Catalogue):
+    """`relabel = {k: gensym(k) ...}; R = P(**relabel)` moves the keys of P out of the way of the variables of other terms.  From there
+    on P's own input names are the wrong ones to compare against: a read of P.inputs / P.input_vars after the relabelling confuses
+    a key with a free variable of the same name in a substituted value."""
+    n = 0
+    for f in prog.funcs.values():
+        if isinstance(f.node, ast.Lambda):
+            continue
+        fresh_maps = set()
+        for st in walk_no_nested(f.node):
+            if isinstance(st, ast.Assign) and len(st.targets) == 1 and isinstance(st.targets[0], ast.Name) and isinstance(st.value, (ast.DictComp, ast.Dict)):
+                vals = [st.value.value] if isinstance(st.value, ast.DictComp) else st.value.values
+                if vals and all(isinstance(v, ast.Call) and (refs.resolve(v.func) if isinstance(v.func, (ast.Name, ast.Attribute)) else None) == "funsor.interpreter.gensym"
+                                for v in vals):
+                    fresh_maps.add(st.targets[0].id)
+        if not fresh_maps:
+            continue
+        for st in walk_no_nested(f.node):
+            if not (isinstance(st, ast.Assign) and len(st.targets) == 1 and isinstance(st.targets[0], ast.Name) and isinstance(st.value, ast.Call)):
+                continue
+            c = st.value
+            if not (isinstance(c.func, ast.Name) and not c.args and len(c.keywords) == 1 and c.keywords[0].arg is None
+                    and isinstance(c.keywords[0].value, ast.Name) and c.keywords[0].value.id in fresh_maps):
+                continue
+            P, R = c.func.id, st.targets[0].id
+            if P not in f.params and P not in local_names(f.node):
+                continue
+            n += 1
+            stale = [x for x in walk_no_nested(f.node) if isinstance(x, ast.Attribute) and x.attr in ("inputs", "input_vars") and isinstance(x.value, ast.Name)
+                     and x.value.id == P and getattr(x, "lineno", 0) > st.lineno]
+            construct = f"{f.fq}::{R} = {P}(**{c.keywords[0].value.id})"
+            if stale:
+                col.violation(construct, f"`{norm(stale[0])}` is read after `{P}` has been relabelled to `{R}` with fresh names: the substituted keys of `{P}` are compared with the "
+                              "variables of other terms under their original spelling, so a free variable that happens to have a key's name is taken for the key", f.loc(stale[0]))
+            else:
+                col.ok(construct, f"after the relabelling only `{R}` is consulted for input names", f.loc(st))
+    if n == 0:
+        raise AnalysisError("no fresh relabelling site found (anchor: adjoint_subs)")
